@@ -18,6 +18,12 @@ inductive Term where
   | contTest      -- `;;&`
   deriving DecidableEq, Repr
 
+inductive Opt where
+  | errexit
+  | pipefail
+  | inheritErrexit
+  deriving DecidableEq, Repr
+
 mutual
 inductive Cmd where
   | leaf (id : Nat) (codes : List Nat)      -- prints m<id>; k-th execution returns codes[min k (len-1)]
@@ -37,7 +43,10 @@ inductive Cmd where
   | cont (n : Option Int)
   | ret (code : Option Int)
   | exit (code : Option Int)
-  | setE (on : Bool)                        -- `set -e` / `set +e`
+  | setOpt (o : Opt) (on : Bool)            -- `set -e`, `set -o pipefail`, `shopt -s inherit_errexit` (and off)
+  | cmdsubst (c : Cmd)                      -- `v=$(c)`: an assignment-only command whose value is a substitution
+  | evalC (c : Cmd)                         -- `eval '<c>'`
+  | pipe (codes : List Nat) (last : Cmd)    -- `Q c1 | Q c2 | … | last`: silent stages returning c_i, then `last`
 inductive Cmds where
   | nil
   | cons (c : Cmd) (cs : Cmds)
@@ -68,6 +77,8 @@ structure St where
   last   : Nat := 0                 -- `$?`
   fdepth : Nat := 0                 -- function nesting (`in_function`)
   errexit : Bool := false
+  pipefail : Bool := false
+  inheritErrexit : Bool := false
   deriving Repr, DecidableEq
 
 structure Res where
@@ -127,6 +138,20 @@ def post (suppress : Bool) (s : St) (r : Res) : St × Res :=
 
 /-- what the pipeline holding a brace group, loop, `if` or `case` does with the status the compound
 command passes on: `$?` only — errexit was checked (or exempt) where the failing command ran -/
+def St.setOpt (s : St) : Opt → Bool → St
+  | .errexit, on => { s with errexit := on }
+  | .pipefail, on => { s with pipefail := on }
+  | .inheritErrexit, on => { s with inheritErrexit := on }
+
+/-- `wait_for_pipeline_processes_and_update_status`: the last stage's status, or with pipefail the
+rightmost non-zero one -/
+def pipeStatus (pipefail : Bool) (codes : List Nat) : Nat :=
+  if pipefail then
+    match codes.reverse.find? (· ≠ 0) with
+    | some c => c
+    | none => 0
+  else codes.getLast?.getD 0
+
 def postC (s : St) (r : Res) : St × Res := ({ s with last := r.code }, r)
 
 abbrev Out := Option (St × Res)
@@ -226,7 +251,25 @@ def exec : Nat → List Cmd → Bool → Cmd → St → Out
     | .exit code =>
       let c := match code with | some v => low8 v | none => s.last
       some (post sup s { code := c, flow := .exit })
-    | .setE on => some (post sup { s with errexit := on } { code := 0, flow := .normal })
+    | .setOpt o on => some (post sup (s.setOpt o on) { code := 0, flow := .normal })
+    | .cmdsubst c =>
+      -- invoke_command_in_subshell_and_get_output: a clone with errexit off unless inherit_errexit
+      match exec fuel fs sup c { s with errexit := s.errexit && s.inheritErrexit } with
+      | none => none
+      | some (s1, r1) =>
+        some (post sup { s with trace := s1.trace } { code := r1.code, flow := .normal })
+    | .evalC c =>
+      -- the eval builtin passes the result (status and control flow) of the evaluated program on
+      match exec fuel fs sup c s with
+      | none => none
+      | some (s1, r1) => some (post sup s1 r1)
+    | .pipe codes lastc =>
+      -- every stage runs in its own clone; only output and statuses come back
+      match exec fuel fs sup lastc s with
+      | none => none
+      | some (s1, r1) =>
+        some (post sup { s with trace := s1.trace }
+          { code := pipeStatus s.pipefail (codes ++ [r1.code]), flow := .normal })
 
 /-- `CompoundList::execute` -/
 def execList : Nat → List Cmd → Bool → Cmds → St → Out
